@@ -65,12 +65,14 @@ SlashRedirect(set, p, raw) == Req_Route(set, p, raw) = "none" /\ p[Len(p)] # "sl
 HasEscapedSlash(p) == \E i \in 1..Len(p) : p[i] = "p2F"
 
 VARIABLE c
-Queries == {"none", "simple", "canon2", "unsorted", "encoded"}
+\* semi: parameters separated by ';' (legal in a query; what the upstream makes of it is the upstream's business) - the same bytes must arrive,
+\* with and without --allow-query-semicolons (which only concerns the proxy's OWN parsing)
+Queries == {"none", "simple", "canon2", "unsorted", "encoded", "semi"}
 Init == \E sn \in SetNames, p \in Paths, raw \in BOOLEAN, ph \in BOOLEAN, m \in {"GET", "POST", "PUT", "DELETE"}, q \in Queries, bd \in {"none", "small", "big", "chunked_small", "chunked_big"} :        \* chunked: Transfer-Encoding: chunked, no Content-Length (100 B / 200 KiB)
           /\ c = [set |-> sn, path |-> p, rawPath |-> raw, passHost |-> ph, method |-> m, query |-> q, body |-> bd]
           /\ (bd # "none" => m \in {"POST", "PUT"}) /\ (m \in {"POST", "PUT"} => bd # "none")
           /\ (bd \in {"big", "chunked_big", "chunked_small"} => Len(p) <= 2 /\ q = "none")
-          /\ (Tier = "quick" => (m \in {"GET", "POST"} /\ (q \in {"none", "unsorted"} \/ Len(p) <= 2) /\ (ph \/ Len(p) <= 3) /\ (m = "GET" \/ Len(p) <= 3)))
+          /\ (Tier = "quick" => (m \in {"GET", "POST"} /\ (q \in {"none", "unsorted"} \/ Len(p) <= 2) /\ (q = "semi" => Len(p) <= 1) /\ (ph \/ Len(p) <= 3) /\ (m = "GET" \/ Len(p) <= 3)))
 Next == UNCHANGED c
 
 Route(d) == Req_Route(Sets[d.set], d.path, d.rawPath)
@@ -85,7 +87,7 @@ CaseRec == [fam |-> "route", in |-> c @@ [escUnderRewrite |-> EscUnderRewrite(c)
                     ELSE IF IsStatic(c) THEN [upstream |-> "static", status |-> 202]
                     ELSE [upstream |-> Route(c), method |-> c.method, path |-> Req_Path(Sets[c.set], c.path, c.rawPath),
                           bodyIntact |-> TRUE, headersIntact |-> TRUE, hostOK |-> TRUE, relayOK |-> TRUE]
-                         @@ (IF IsRW(c) /\ c.query \in {"unsorted", "encoded"} THEN <<>> ELSE [queryIntact |-> TRUE]),
+                         @@ (IF IsRW(c) /\ c.query \in {"unsorted", "encoded", "semi"} THEN <<>> ELSE [queryIntact |-> TRUE]),
             impl |-> IF Route(c) = "none" THEN [status |-> IF SlashRedirect(Sets[c.set], c.path, c.rawPath) THEN 301 ELSE 404] ELSE [panic |-> FALSE],
             rw |-> IsRW(c), escSlash |-> HasEscapedSlash(c.path)]
 EmitVocab == JsonSerialize("vocab.json", Vocab)
